@@ -24,9 +24,18 @@ func zzFold(r rune, cs, norm bool) rune {
 }
 
 // zzText builds the text under test. rep 0: ASCII bytes (bytes representation),
-// rep 1: the same ASCII characters held as runes, rep 2: runes from the alphabet zzSigma.
+// rep 1: the same ASCII characters held as runes, rep 2: runes from the alphabet zzSigma,
+// rep 3: bytes from zzTiny.
 func zzText(n int, rep int) (util.Chars, []rune) {
 	switch rep {
+	case 3:
+		b := make([]byte, n)
+		rs := make([]rune, n)
+		for i := range b {
+			rs[i] = zzTiny[zzv.Below(len(zzTiny))]
+			b[i] = byte(rs[i])
+		}
+		return util.ToChars(b), rs
 	case 0:
 		b := zzv.Bytes7(n)
 		rs := make([]rune, n)
@@ -57,16 +66,22 @@ func zzText(n int, rep int) (util.Chars, []rune) {
 // non-ASCII space, non-ASCII number, non-ASCII non-word, dotted capital I, sharp s.
 var zzSigma = []rune{'a', 'A', 'b', '1', '_', '/', ' ', 'é', 'É', 'ǅ', 'ǆ', 'ᴋ', '한', ' ', '²', '·', 'İ', 'ß', 'k', 'K'}
 
+// small alphabets for deeper bounds: a letter in both cases, a second letter, a separator
+var zzTiny = []rune{'a', 'b', 'A', '-'}
+
 // zzPattern builds a pattern satisfying the documented Algo preconditions.
-// pk 0: symbolic ASCII; pk 1: from zzSigma.
+// pk 0: symbolic ASCII; pk 1: from zzSigma; pk 2: from zzTiny.
 func zzPattern(m int, pk int, cs, norm bool) []rune {
 	p := make([]rune, m)
 	for i := range p {
 		var r rune
-		if pk == 0 {
+		switch pk {
+		case 0:
 			r = rune(zzv.Byte7())
-		} else {
+		case 1:
 			r = zzSigma[zzv.Below(len(zzSigma))]
+		default:
+			r = zzTiny[zzv.Below(len(zzTiny))]
 		}
 		// precondition 1: lower-case if case-insensitive; 2: normalised if normalize
 		if !cs {
